@@ -27,6 +27,10 @@ func init() {
 }
 */
 
+// maxSnappyExpansion bounds decoded size / encoded size of a valid snappy block (a copy element with a
+// 2-byte offset: 3 bytes encode up to 64).
+const maxSnappyExpansion = 22
+
 type snappyBuf struct {
 	buf []byte
 }
@@ -83,6 +87,11 @@ func (se snappyEncoding) Unmarshal(buf []byte, msg drpc.Message) (err error) {
 	decodedLen, err := snappy.DecodedLen(buf)
 	if err != nil {
 		return
+	}
+	// the length is whatever the sender wrote in the block header (up to 4 GiB); do not allocate what the block
+	// cannot decode to: the densest snappy element turns 3 bytes into 64
+	if decodedLen > maxSnappyExpansion*len(buf) {
+		return snappy.ErrCorrupt
 	}
 
 	var unmarshalBuf *snappyBuf
